@@ -30,6 +30,14 @@ Fixpoint rng_mem (ranges : list (N * N)) (c : N) : bool :=
 
 Definition is_ws (c : N) : bool := rng_mem ws_ranges c.
 
+(* the same 25 characters, listed; [esc_covers_ws esc]: a Debug escape table under which no
+   whitespace character other than U+0020 is printed as itself (9, 10, 13 have short escapes) *)
+Definition ws_list : list N :=
+  [9; 10; 11; 12; 13; 32; 133; 160; 5760; 8192; 8193; 8194; 8195; 8196; 8197; 8198; 8199; 8200; 8201; 8202;
+   8232; 8233; 8239; 8287; 12288].
+Definition esc_covers_ws (esc : N -> bool) : bool :=
+  forallb (fun c => memb c [32; 9; 10; 13] || esc c) ws_list.
+
 (* ---- post_process_whitespace (definition.rs) ---- *)
 (* str::trim = trim_start + trim_end by char::is_whitespace *)
 Fixpoint trim_start (s : str) : str :=
